@@ -15,6 +15,10 @@ DataBothWays ==
   (D.kind = "connect" /\ L.mrun[1] = 1 /\ L.mrun[2] = 1) =>
      /\ L.mdout[2] = L.mdin[1]                    \* what read returns is what write was given
      /\ D.rev => L.mdout[1] = L.mdin[2]           \* and the reverse direction
+\* kind "chainc": two Connects in a row (meths 1,2 = first write/read, 3,4 = second write/read); transaction A writes
+\* the first, B reads the first and writes the second, C reads the second; A and C may share a nonexclusive target.
+\* Only the sentences of C13 are judged on it (the per-caller model below describes single-method callers).
+Modelled == D.kind # "chainc"
 \* ---- model
 RECURSIVE Grp(_, _)
 Grp(S, n) == IF n = 0 THEN S ELSE Grp(S \cup {y \in Meths : \E x \in S : <<x, y>> \in Pairs \/ <<y, x>> \in Pairs}, n - 1)
